@@ -695,9 +695,9 @@ def body_thin(ctx, case):
 SUBS = [
     Sub(name="fields", body=body_fields, cases=field_cases, lanes=("f64",), exhaustive=True, exhaustive_quick=False,
         quick_shards=4, rule="all 26 symmetry tuples x {E,H} x reduced shapes {1..4}^3 (quick: one shape per pair)"),
-    Sub(name="array", body=body_array, strategy=lambda ctx: array_strategy(ctx), quick=120, thorough=4000,
+    Sub(name="array", body=body_array, strategy=lambda ctx: array_strategy(ctx), quick=120, thorough=6000,
         lanes=("f64",), quick_shards=4, rule="unfold_array with drawn spatial-axis placement, signs, on-plane axes"),
-    Sub(name="detector", body=body_detector, strategy=lambda ctx: detector_strategy(ctx), quick=200, thorough=8000,
+    Sub(name="detector", body=body_detector, strategy=lambda ctx: detector_strategy(ctx), quick=200, thorough=12000,
         lanes=("f64",), quick_shards=4,
         rule="synthetic detector of every kind, region in every relation to the planes, random records"),
     Sub(name="detector_placed", body=body_placed, strategy=lambda ctx: placed_strategy(ctx), quick=16, thorough=480,
